@@ -4,7 +4,9 @@ Tie: real util.event_as_json and the EOSE branch of web.send_subscriptions vs th
 (`eventAsJson`, `eoseFrame`), compared as code-point arrays.  Search: every emitted frame must parse with
 Python's json *and* with the Lean `parseFrame` to the subscription id and the event that was put in;
 every accepted (really signed) event must come back field for field from storage (get_event, a query,
-HTTP /e/<id>) and as the live push, on both backends, and still verify.
+HTTP /e/<id>) and as the live push, on both backends, and still verify.  The HTTP route and websocket sessions
+go through the ASGI application as web.create_app builds it (make_http); served texts are read with nothing
+lost (parse_strict: objects as the sequence of their members) and compared with JSON types and member order.
 """
 import asyncio
 import copy
@@ -303,6 +305,52 @@ def norm(x):
     return json.dumps(json.loads(json.dumps(x)))
 
 
+class _Obj(list):
+    """a JSON object as it stands in a served text: its (key, value) members in the order of the text, repeated keys kept"""
+
+
+def parse_strict(text):
+    """the JSON value a served text denotes, nothing forgiven and nothing lost: an object is the SEQUENCE of its members (json.loads
+    into a dict keeps the order but silently drops a repeated key), NaN / Infinity (which Python reads and JSON does not have) are
+    refused"""
+    def constant(c):
+        raise ValueError("%s is not JSON" % c)
+    return json.loads(text, object_pairs_hook=_Obj, parse_constant=constant)
+
+
+def tree(x):
+    """a JSON value — as parse_strict read it, or as the Python data the client serialised — as a term in which 1 / 1.0 / true and
+    0.0 / -0.0 are different things, tuples and lists the same thing, and an object is the sequence of its members: the id of an
+    event is the hash of the serialisation of its fields in the order the signer wrote them, so {"b":1,"a":2} and {"a":2,"b":1}
+    (equal as Python dicts) are different tag items"""
+    if isinstance(x, _Obj):
+        return ["obj", [[k, tree(v)] for k, v in x]]
+    if isinstance(x, dict):
+        return ["obj", [[k, tree(v)] for k, v in x.items()]]
+    if isinstance(x, (list, tuple)):
+        return ["arr", [tree(v) for v in x]]
+    if x is None:
+        return ["null"]
+    if isinstance(x, bool):
+        return ["bool", x]
+    if isinstance(x, int):
+        return ["int", str(x)]
+    if isinstance(x, float):
+        return ["float", repr(x)]
+    if isinstance(x, str):
+        return ["str", x]
+    raise TypeError(type(x))
+
+
+def plain(x):
+    """parse_strict's value as ordinary Python data (dicts in the order of the text)"""
+    if isinstance(x, _Obj):
+        return {k: plain(v) for k, v in x}
+    if isinstance(x, list):
+        return [plain(v) for v in x]
+    return x
+
+
 def served_ok(accepted, served):
     """field for field equal (JSON-normalised: tuples = lists)"""
     if served is None:
@@ -316,7 +364,7 @@ def classify_store(ev):
     return None
 
 
-def store_case(report, rng, store, keys, app_client, tags=None):
+def store_case(report, rng, store, keys, app_client, tags=None, ws=False):
     if tags is None:
         mutate = rng.choice(["upper-pubkey", "spaced-pubkey", "spaced-sig", "ws-sig"]) if rng.random() < 0.12 else None
         ev = signed_event(rng, keys, mutate)
@@ -352,13 +400,26 @@ def store_case(report, rng, store, keys, app_client, tags=None):
     if len(q) != 1 or not served_ok(accepted, q[0]):
         report.property_failure("%s: a query serves %d events / a different event for the accepted id" % (store.backend, len(q)),
                                 payload, classify_store(accepted))
-    # HTTP /e/<id>
-    body = store.run(app_client(accepted["id"]))
-    if body is None or norm(body) != norm(accepted):
-        report.property_failure("%s: HTTP /e/<id> serves %r" % (store.backend, str(body)[:100]), payload, classify_store(accepted))
+    app_routes(report, store, accepted, payload, app_client, ws)
     report.case(("store", store.backend, json.dumps(accepted, sort_keys=True)), nontrivial=True,
                 sample={"backend": store.backend, "content": accepted["content"][:16], "tags": accepted["tags"][:2]})
     report.count("stored_" + store.backend)
+
+
+def app_routes(report, store, accepted, payload, app_client, ws):
+    """the routes of the application (make_http) for one accepted, retrievable event: the raw body of GET /e/<id> — and, with `ws`,
+    the raw frames of a websocket REQ for its id — must be the accepted event: parsed with nothing lost (parse_strict), compared
+    field for field with JSON types and the order of object members (served_differs), id and signature recomputed from the text"""
+    why = text_differs(accepted, store.run(app_client.get(accepted["id"])))
+    if why:
+        report.property_failure("%s: HTTP /e/<id> does not serve the accepted event (%s)" % (store.backend, why), payload,
+                                classify_store(accepted))
+    report.count("http_bodies_" + store.backend)
+    if ws:
+        frames = store.run(app_client.req("c04", {"ids": [accepted["id"]]}))
+        n = event_frames(report, payload, frames, "c04", {accepted["id"]: accepted}, "the stored answer of a websocket session through the application",
+                         cls=classify_store(accepted))
+        report.count("app_ws_event_frames_" + store.backend, n)
 
 
 def diff_fields(a, b):
@@ -366,21 +427,58 @@ def diff_fields(a, b):
     return ",".join(k for k in a if json.dumps(a.get(k)) != json.dumps(b.get(k)))
 
 
-def make_http(store):
-    import falcon.asgi
-    import falcon.testing
-    from nostr_relay import web
+class make_http:
+    """The HTTP and websocket routes of the ASGI application AS THE RELAY BUILDS IT — web.create_app: the routes, the middleware, the
+    media handlers that turn `resp.media` into the bytes of the body and those of websocket payloads — around this store's storage
+    object; not a hand-made falcon App holding only the resource (whatever create_app configures between the resource and the
+    socket is part of what a client is served).  What comes back is the RAW text: every judgement is made on it.
+    The lifespan events are not run (the storage object is set up already and goes on being used afterwards).  create_app loads
+    the shipped configuration file into the process-wide Config on its first call; the harness's own settings are put back, so
+    that everything else in the run behaves as it did"""
 
-    app = falcon.asgi.App()
-    app.add_route("/e/{event_id}", web.ViewEventResource(store.storage))
+    def __init__(self, store):
+        from nostr_relay import web
+        from nostr_relay.config import Config
 
-    async def get(event_id):
-        async with falcon.testing.ASGIConductor(app) as c:
-            r = await c.simulate_get("/e/%s" % event_id)
-            if r.status_code != 200:
-                return None
-            return r.json
-    return get
+        saved = dict(Config.__dict__)
+        try:
+            self.app = web.create_app(storage=store.storage)
+        finally:
+            Config.__dict__.clear()
+            Config.__dict__.update(saved)
+
+    async def get(self, event_id):
+        """the body of GET /e/<id> (bytes), None unless the status is 200"""
+        import falcon.testing
+        r = await falcon.testing.ASGIConductor(self.app).simulate_get("/e/%s" % event_id)
+        if r.status_code != 200:
+            return None
+        return r.content
+
+    async def req(self, sid, filt, most=200):
+        """one websocket session through NostrAPI.on_websocket: a REQ, the raw text frames up to its EOSE (or a NOTICE, or the
+        end of the connection)"""
+        import falcon
+        import falcon.testing
+        out = []
+        try:
+            async with falcon.testing.ASGIConductor(self.app).simulate_ws("/", remote_addr="1.2.3.6") as ws:
+                await ws.send_text(json.dumps(["REQ", sid, filt]))
+                while len(out) < most:
+                    try:
+                        text = await asyncio.wait_for(ws.receive_text(), 20)
+                    except asyncio.TimeoutError:
+                        break           # (a missing EOSE is C05's business)
+                    out.append(text)
+                    try:
+                        f = json.loads(text)
+                    except Exception:
+                        continue        # (judged by the caller)
+                    if isinstance(f, list) and f and f[0] in ("EOSE", "NOTICE"):
+                        break
+        except falcon.WebSocketDisconnected:
+            pass
+        return out
 
 
 def capture_pushes(store):
@@ -409,6 +507,7 @@ def ws_frames_case(report, rng, backend, keys, tag):
     try:
         c = Conn(relay)
         sent = []
+        published = {}
         for step in range(rng.randint(6, 14)):
             if c.done:
                 break
@@ -420,6 +519,7 @@ def ws_frames_case(report, rng, backend, keys, tag):
                 ev = signed_event(rng, keys)
                 msg = ["EVENT", ev]
                 expect_id = ev["id"]
+                published[ev["id"]] = copy.deepcopy(ev)
             elif r < 0.6:
                 ev = signed_event(rng, keys)
                 ev["id"] = rng.choice(HOSTILE_IDS)
@@ -441,7 +541,8 @@ def ws_frames_case(report, rng, backend, keys, tag):
             for text in c.out[n:]:
                 report.count("ws_frames_" + backend)
                 try:
-                    f = json.loads(text)
+                    strict = parse_strict(text)
+                    f = plain(strict)
                 except Exception:
                     report.property_failure("%s: the relay sent a frame that is not JSON: %r (in answer to %r)" % (backend, text[:120], msg),
                                             payload, None)
@@ -460,6 +561,13 @@ def ws_frames_case(report, rng, backend, keys, tag):
                     report.property_failure("%s: OK frame names %r, the EVENT message named %r" % (backend, f[1], expect_id), payload, None)
                 elif f[0] == "EOSE" and expect_sub is not None and f[1] != expect_sub:
                     report.property_failure("%s: EOSE for %r, the REQ said %r" % (backend, f[1], expect_sub), payload, None)
+                elif f[0] == "EVENT" and isinstance(f[2].get("id"), str) and f[2]["id"] in published:
+                    # an event this session published under its own id and now gets back: verbatim (types, member order), verifiable
+                    report.count("ws_event_frames_compared_" + backend)
+                    why = served_differs(published[f[2]["id"]], strict[2], True)
+                    if why:
+                        report.property_failure("%s: an EVENT frame does not carry the accepted event (%s): %r" % (backend, why, text[:160]),
+                                                payload, None)
         report.case(("ws-frames", backend, tag, limited), nontrivial=True, sample={"backend": backend, "rate_limited": limited, "messages": len(sent)})
         report.count("ws_frame_sessions_" + backend + ("_rate_limited" if limited else ""))
     finally:
@@ -525,15 +633,26 @@ def twin_family(rng):
 
 
 def served_differs(accepted, served, verify):
-    """None, or how the served object is not field for field (JSON types included) the accepted event"""
-    if not isinstance(served, dict):
+    """None, or how the served object (a dict, or an object as parse_strict read it) is not field for field the accepted event:
+    JSON types, the order of the members of objects inside the fields and repeated members included.  The order of the seven
+    fields themselves is not part of the event"""
+    if isinstance(served, _Obj):
+        names = [k for k, _ in served]
+        if len(set(names)) != len(names):
+            return "a field occurs twice: %s" % names
+        fields = {k: tree(v) for k, v in served}
+        served = plain(served)
+    elif isinstance(served, dict):
+        fields = {k: tree(v) for k, v in served.items()}
+    else:
         return "not an object: %r" % (served,)
     if set(served) != set(accepted):
         return "fields %s" % sorted(set(served) ^ set(accepted))
-    bad = [k for k in accepted if norm(served[k]) != norm(accepted[k])]
+    bad = [k for k in accepted if fields[k] != tree(accepted[k])]
     if bad:
         return "%s: accepted %s, served %s" % (",".join(bad), json.dumps(accepted[bad[0]])[:90], json.dumps(served[bad[0]])[:90])
     if verify:
+        # recomputed from what was served, in the order it was served
         from aionostr.event import Event
         try:
             e = Event(**served)
@@ -545,6 +664,47 @@ def served_differs(accepted, served, verify):
     return None
 
 
+def text_differs(accepted, text, verify=True):
+    """None, or how a served text (an HTTP body) is not the accepted event"""
+    if text is None:
+        return "no answer"
+    try:
+        if isinstance(text, bytes):
+            text = text.decode("utf-8")
+        served = parse_strict(text)
+    except Exception as e:
+        return "not JSON: %s: %r" % (e, text[:120])
+    return served_differs(accepted, served, verify)
+
+
+def event_frames(report, payload, texts, sid, by_id, path, differ_by="", cls=None):
+    """the EVENT frames for subscription `sid` among raw frame texts: each must be JSON, name an accepted event and BE that event
+    (served_differs, id and signature recomputed from the frame).  Returns the number of frames judged"""
+    backend = payload["backend"]
+    n = 0
+    for text in texts:
+        try:
+            s = parse_strict(text)
+        except Exception as e:
+            report.property_failure("%s: the relay sent a frame that is not JSON (%s): %r" % (backend, e, text[:120]), payload, cls)
+            continue
+        if not (isinstance(s, list) and not isinstance(s, _Obj) and len(s) == 3 and s[0] == "EVENT" and s[1] == sid and isinstance(s[2], _Obj)):
+            continue
+        ident = plain(s[2]).get("id")
+        acc = by_id.get(ident) if isinstance(ident, str) else None
+        if acc is None:
+            # (the subscription is open only while this group is published / the REQ names these ids)
+            report.property_failure("%s: %s serves an event with an id that was never accepted: %r" % (backend, path, text[:160]),
+                                    payload, cls)
+            continue
+        n += 1
+        why = served_differs(acc, s[2], True)
+        if why:
+            report.property_failure("%s: %s of %s is not the accepted event (%s)" % (backend, path, differ_by or "an accepted event", why),
+                                    payload, cls)
+    return n
+
+
 def twins_frames_check(report, payload):
     """util.event_as_json over the events of the payload, in that order, two passes"""
     from nostr_relay import util
@@ -553,27 +713,29 @@ def twins_frames_check(report, payload):
         for ev in payload["events"]:
             frame = util.event_as_json(sid, _Ev(ev))
             try:
-                j = json.loads(frame)
-                why = None if isinstance(j, list) and len(j) == 3 and j[0] == "EVENT" and j[1] == sid else "not an EVENT frame for %r" % sid
+                j = parse_strict(frame)
+                why = None if isinstance(j, list) and not isinstance(j, _Obj) and len(j) == 3 and j[0] == "EVENT" and j[1] == sid \
+                    else "not an EVENT frame for %r" % sid
                 why = why or served_differs(ev, j[2], False)
             except Exception as e:
                 why = "not JSON: %s" % e
             if why:
-                report.property_failure("EVENT frame of an event whose tags differ from an earlier event's only by an equal-comparing "
-                                        "/ alike-spelt value (pass %d): %s" % (rnd, why), payload, None)
+                report.property_failure("EVENT frame of %s (pass %d): %s" % (payload.get("differ_by") or TWINS, rnd, why), payload, None)
                 return False
     return True
 
 
-def twins_frame_case(report, rng):
-    variants, cls = twin_family(rng)
+def twins_frame_case(report, rng, family="twin"):
+    variants, cls = twin_family(rng) if family == "twin" else order_family(rng)
     evs = [{"id": rng.randbytes(32).hex(), "pubkey": rng.randbytes(32).hex(), "sig": rng.randbytes(64).hex(),
             "created_at": 1700000000 + rng.randrange(1000), "kind": 1, "content": rand_text(rng, 4), "tags": tags} for tags in variants]
     payload = {"kind": "twins-frame", "sid": rng.choice(["a", "sub1", 'a"b']), "events": evs}
+    if family != "twin":
+        payload["differ_by"] = REORDERED
     twins_frames_check(report, payload)
-    report.case(("twins-frame", norm([e["tags"] for e in evs])), nontrivial=True, sample={"twins": [e["tags"] for e in evs][:3]})
-    report.count("twin_families_frames_" + cls)
-    report.count("twin_events_frames", len(evs))
+    report.case(("twins-frame", norm([e["tags"] for e in evs])), nontrivial=True, sample={family + "s": [e["tags"] for e in evs][:3]})
+    report.count("%s_families_frames_%s" % (family, cls))
+    report.count("%s_events_frames" % family, len(evs))
 
 
 def sign_tags(rng, keys, tags, created_at):
@@ -584,38 +746,20 @@ def sign_tags(rng, keys, tags, created_at):
     return ev.to_json_object()
 
 
+TWINS = "an event whose tags differ from another accepted event's only by an equal-comparing / alike-spelt value"
+
+
 def twins_ws_check(report, relay, payload, first=0):
     """One relay process, real websocket sessions: the events of each group are published (while a live subscription is open
-    or not), then asked for by id, then fetched over HTTP.  Every EVENT frame (its raw text) and every HTTP body must be the
-    accepted event, JSON types included, and must still verify.  Returns the number of (event, path) observations"""
+    or not), then asked for by id, then fetched over HTTP (through the application as the relay builds it).  Every EVENT frame
+    (its raw text) and every HTTP body (its raw text) must be the accepted event — JSON types and the order of object members
+    included — and must still verify.  Returns the number of (event, path) observations"""
     from lib.proto import Conn
     backend = payload["backend"]
+    differ_by = payload.get("differ_by") or TWINS
     pub, sub = Conn(relay, remote_addr="1.2.3.4"), Conn(relay, remote_addr="1.2.3.5")
     http = make_http(relay.store)
     seen = 0
-
-    def look(texts, sid, by_id, path):
-        n = 0
-        for text in texts:
-            try:
-                f = json.loads(text)
-            except Exception:
-                report.property_failure("%s: the relay sent a frame that is not JSON: %r" % (backend, text[:120]), payload, None)
-                continue
-            if not (isinstance(f, list) and len(f) == 3 and f[0] == "EVENT" and f[1] == sid and isinstance(f[2], dict)):
-                continue
-            acc = by_id.get(f[2].get("id"))
-            if acc is None:
-                # (the subscription is open only while this group is published, the REQ names this group's ids)
-                report.property_failure("%s: %s serves an event with an id that was never accepted: %r" % (backend, path, text[:160]),
-                                        payload, None)
-                continue
-            n += 1
-            why = served_differs(acc, f[2], True)
-            if why:
-                report.property_failure("%s: %s of an event whose tags differ from another accepted event's only by an equal-comparing "
-                                        "/ alike-spelt value is not the accepted event (%s)" % (backend, path, why), payload, None)
-        return n
 
     for gi, group in enumerate(payload["groups"]):
         events, live = group["events"], group["live"]
@@ -628,46 +772,142 @@ def twins_ws_check(report, relay, payload, first=0):
             if pub.send_event(copy.deepcopy(e)):
                 accepted[e["id"]] = e
         if live:
-            seen += look(sub.out[n0:], "live", by_id, "the live push")
+            seen += event_frames(report, payload, sub.out[n0:], "live", by_id, "the live push", differ_by)
             sub.send(["CLOSE", "live"])
         n0 = len(sub.out)
         sid = "stored%d" % (first + gi)
         sub.send(["REQ", sid, {"ids": list(by_id)}])
-        seen += look(sub.out[n0:], sid, by_id, "the stored answer")
+        seen += event_frames(report, payload, sub.out[n0:], sid, by_id, "the stored answer", differ_by)
         sub.send(["CLOSE", sid])
         for i, e in accepted.items():
-            body = relay.run(http(i))
+            body = relay.run(http.get(i))
             if body is None:
                 continue        # (not retrievable: C06's business, as in store_case)
             seen += 1
-            why = served_differs(e, body, True)
+            why = text_differs(e, body)
             if why:
-                report.property_failure("%s: HTTP /e/<id> of an event whose tags differ from another accepted event's only by an "
-                                        "equal-comparing / alike-spelt value is not the accepted event (%s)" % (backend, why), payload, None)
-        report.count("twin_events_accepted_" + backend, len(accepted))
+                report.property_failure("%s: HTTP /e/<id> of %s is not the accepted event (%s)" % (backend, differ_by, why), payload, None)
+        report.count("%s_events_accepted_%s" % (payload.get("family") or "twin", backend), len(accepted))
     pub.close()
     sub.close()
     return seen
 
 
-def twins_ws_case(report, rng, backend, keys, families):
+def twins_ws_case(report, rng, backend, keys, families, family="twin"):
     from lib.proto import Relay
+    gen, differ_by = (twin_family, None) if family == "twin" else (order_family, REORDERED)
     groups = []
     for _ in range(families):
-        variants, cls = twin_family(rng)
+        variants, cls = gen(rng)
         # the stored answer comes newest first: random distinct timestamps make its order independent of the order of submission
         stamps = rng.sample(range(1700000000, 1700001000), len(variants))
         groups.append({"live": rng.random() < 0.5, "class": cls, "events": [sign_tags(rng, keys, t, ts) for t, ts in zip(variants, stamps)]})
-        report.count("twin_families_ws_%s_%s" % (backend, cls))
+        report.count("%s_families_ws_%s_%s" % (family, backend, cls))
     payload = {"kind": "twins-ws", "backend": backend, "groups": groups}
+    if differ_by:
+        payload.update({"family": family, "differ_by": differ_by})
     relay = Relay(backend)
     try:
         seen = twins_ws_check(report, relay, payload)
     finally:
         relay.close()
-    report.count("twin_observations_" + backend, seen)
+    report.count("%s_observations_%s" % (family, backend), seen)
     report.case(("twins-ws", backend, norm([[e["tags"] for e in g["events"]] for g in groups])), nontrivial=True,
-                sample={"backend": backend, "twins": [e["tags"] for e in groups[0]["events"]][:3], "live": groups[0]["live"]})
+                sample={"backend": backend, family + "s": [e["tags"] for e in groups[0]["events"]][:3], "live": groups[0]["live"]})
+
+
+# ---- (f) siblings: objects inside tags whose members stand in an order that no canonical form produces -----------------------
+#
+# {"b":1,"a":2} == {"a":2,"b":1} in Python (and they hash alike once frozen), json.dumps(sort_keys=True) / a JSONB column / a
+# "canonical JSON" pass / a cache keyed by the parsed value make them the same text — but the id of an event is the hash of the
+# serialisation the SIGNER made, members in the signer's order.  Any layer between acceptance and the socket that rebuilds the
+# objects (a codec that sorts, an encoder configured per route, a store that normalises, a memo keyed by ==) serves an event that
+# no longer hashes to its id, and nothing notices unless (1) some object inside a tag has two or more members that are NOT in
+# the order the layer would produce, (2) the route in question is exercised THROUGH that layer (the application as the relay
+# builds it, not a resource wired by hand) and (3) the served text is read without losing the order.  A family = one tag
+# skeleton holding objects (bare, inside arrays, inside objects; 2..6 members, sometimes 16/17: msgpack's fixmap / map16
+# boundary), written 2..4 times with the members of every object in different orders — among them, as a rule, the code-point
+# sorted one and its reverse — so that whichever order a layer prefers, some sibling is not in it, and a table keyed by == has
+# both of a pair to confuse.  Keys: plain words, one-letter names, upper / lower case (sorted differently by case-folding
+# collations), digit strings ("10" < "9" as text, not as numbers), the empty key, non-ASCII and non-BMP (UTF-8 / UTF-16 / code
+# point orders differ), keys that need escapes.
+
+REORDERED = "an event with objects inside its tags whose members are not in sorted order (siblings differ only by that order)"
+OBJ_KEYS = ["zebra", "apple", "mango", "url", "m", "dim", "alt", "x", "size", "b", "a", "B", "A", "aa", "ab", "Z", "z", "_", "10", "9", "2",
+            "", "é", "e", "\uffff", "\U0001f600", "key with space", 'q"uote', "back\\slash", "new\nline", "k", "id", "tags"]
+
+
+def rand_object(rng, depth=0):
+    n = rng.choice([2, 2, 2, 3, 3, 4, 6]) if rng.random() < 0.93 or depth else rng.choice([15, 16, 17])
+    names = rng.sample(OBJ_KEYS, min(n, len(OBJ_KEYS)))
+    names += ["k%d" % i for i in range(n - len(names))]
+    obj = {}
+    for k in names:
+        r = rng.random()
+        if r < 0.35:
+            obj[k] = rand_text(rng, rng.randint(0, 4))
+        elif r < 0.6:
+            obj[k] = rng.choice([0, 1, -5, 2 ** 31, 2 ** 53, 1.5, 0.1, -0.5, 1e20, True, False, None])
+        elif depth >= 2:
+            obj[k] = rng.choice([[], ["n"], "leaf"])
+        elif r < 0.8:
+            obj[k] = rand_object(rng, depth + 1)
+        else:
+            obj[k] = [rand_object(rng, depth + 1) if rng.random() < 0.6 else rng.choice(["n", 1, None]) for _ in range(rng.choice([1, 2]))]
+    return obj
+
+
+def reordered(rng, x, how):
+    """the same JSON value with the members of every object (at every depth) in another order"""
+    if isinstance(x, dict):
+        ks = list(x)
+        if how == "sorted":
+            ks.sort()
+        elif how == "reversed":
+            ks.sort(reverse=True)
+        else:
+            rng.shuffle(ks)
+        return {k: reordered(rng, x[k], how) for k in ks}
+    if isinstance(x, list):
+        return [reordered(rng, v, how) for v in x]
+    return x
+
+
+def has_unsorted_object(x):
+    if isinstance(x, dict):
+        return list(x) != sorted(x) or any(has_unsorted_object(v) for v in x.values())
+    return isinstance(x, list) and any(has_unsorted_object(v) for v in x)
+
+
+def order_family(rng):
+    """2..4 tag lists that differ only in the order of the members of the objects they hold"""
+    skeleton = []
+    for _ in range(rng.choice([1, 1, 2, 3])):
+        t = [rng.choice(["payload", "imeta", "x", "t", "e", "p", "client", "d"])]
+        if len(t[0]) == 1 and rng.random() < 0.85:
+            # the value of a one-letter tag is indexed: the SQL backend refuses an event that has an array / object there
+            # (OK=false, nothing to serve), so the objects mostly come after a string value
+            t.append(rng.choice(["v", "", rand_text(rng, 3), ref_text(rng)]))
+        n = rng.choice([1, 1, 2, 3])
+        at = rng.randrange(n)
+        for j in range(n):
+            if j == at or rng.random() < 0.25:
+                o = rand_object(rng)
+                t.append(rng.choice([o, o, o, [o], ["a", o, "b"]]))
+            else:
+                t.append(rng.choice(["x", "", rand_text(rng, 3), ref_text(rng)]))
+        skeleton.append(t)
+    want = rng.choice([2, 2, 3, 4])
+    variants, seen = [], set()
+    for how in ["shuffled", "sorted", "reversed"] + ["shuffled"] * 12:
+        tags = reordered(rng, skeleton, how)
+        if norm(tags) not in seen:
+            seen.add(norm(tags))
+            variants.append(tags)
+        if len(variants) == want:
+            break
+    rng.shuffle(variants)
+    return variants, "key-order"
 
 
 def run(report, tier, seed):
@@ -687,6 +927,14 @@ def run(report, tier, seed):
         "(bare or nested), also side by side in one event, served by one process in random order: util.event_as_json twice over, "
         "the store round trips, and real websocket sessions (live push, stored answer by id, HTTP /e/<id>; raw frame text, "
         "type-strict comparison, id and signature re-verified) on both backends; "
+        "siblings: families of 2-4 events whose tags hold objects (bare, inside arrays, inside objects; 2-6 members, sometimes 15-17) "
+        "and differ only in the ORDER of the members of those objects (a random order, the code-point sorted one, its reverse, more "
+        "random ones; keys: words, single letters in both cases, digit strings, the empty key, non-ASCII / non-BMP, keys needing "
+        "escapes), through the same three stations; "
+        "the HTTP route and every third stored answer go through the ASGI application as web.create_app builds it (routes, middleware, "
+        "media handlers), and every served text (HTTP body, websocket frame) is read with nothing lost — objects as the sequence of "
+        "their members, repeated keys kept, NaN / Infinity refused — compared field for field with JSON types and member order, id and "
+        "signature recomputed from the text; "
         "non-trivial = the frame needs an escape or carries a non-string item")
     report.assumptions += ["the codecs rapidjson and the SQLite JSON column are exercised, not modelled; the LMDB record codec (msgpack "
                            "packb / unpackb as kv.encode_event / decode_event use them) is modelled (Model/MsgPack) and compared byte for "
@@ -700,20 +948,21 @@ def run(report, tier, seed):
     try:
         for st in stores:
             capture_pushes(st)
+        https = {st.backend: make_http(st) for st in stores}
         for e in report.known:
             r = common.load_finding_replay(e)
             if r.get("kind") == "store":
                 for st in stores:
                     if st.backend == r["backend"]:
-                        replay_store(report, st, r["event"])
+                        replay_store(report, st, r["event"], https[st.backend])
         for i in range(300 if tier == "quick" else 6000):
             frame_case(report, drv, rng, loop)
         for i in range(300 if tier == "quick" else 5000):
             record_case(report, drv, rng, big=(i % 100 == 50))
-        https = {st.backend: make_http(st) for st in stores}
         for i in range(250 if tier == "quick" else 3000):
             for st in stores:
-                store_case(report, rng, st, keys, https[st.backend])
+                # (every third one is also asked for over a websocket session through the application: those cost ~10 ms each)
+                store_case(report, rng, st, keys, https[st.backend], ws=(i % 3 == 0))
         for i in range(10 if tier == "quick" else 150):
             for backend in ("sql", "kv"):
                 ws_frames_case(report, rng, backend, keys, i)
@@ -726,18 +975,33 @@ def run(report, tier, seed):
             variants, cls = twin_family(rng)
             for st in stores:
                 for tags in variants:
-                    store_case(report, rng, st, keys, https[st.backend], tags=copy.deepcopy(tags))
+                    store_case(report, rng, st, keys, https[st.backend], tags=copy.deepcopy(tags), ws=True)
                 report.count("twin_families_store_%s_%s" % (st.backend, cls))
         for i in range(4 if tier == "quick" else 60):
             for backend in ("sql", "kv"):
                 twins_ws_case(report, rng, backend, keys, families=4)
+        # (f) siblings (objects whose members are not in sorted order), through the same three stations as the twins.  Sizes: one
+        # object with two members out of order, served once over the route in question, is enough — nothing depends on a volume;
+        # the numbers buy variety of keys, depths, positions, orders and routes
+        for i in range(150 if tier == "quick" else 3000):
+            twins_frame_case(report, rng, family="sibling")
+        for i in range(50 if tier == "quick" else 800):
+            variants, cls = order_family(rng)
+            for st in stores:
+                for tags in variants:
+                    store_case(report, rng, st, keys, https[st.backend], tags=copy.deepcopy(tags), ws=True)
+                    report.count("sibling_events_store_%s_%s" % (st.backend, "unsorted" if has_unsorted_object(tags) else "sorted"))
+                report.count("sibling_families_store_%s" % st.backend)
+        for i in range(3 if tier == "quick" else 50):
+            for backend in ("sql", "kv"):
+                twins_ws_case(report, rng, backend, keys, families=4, family="sibling")
     finally:
         for st in stores:
             st.close()
         drv.close()
 
 
-def replay_store(report, store, ev):
+def replay_store(report, store, ev, app_client=None):
     accepted = copy.deepcopy(ev)
     store.captured = []
     res = store.add(ev)
@@ -748,6 +1012,8 @@ def replay_store(report, store, ev):
     if got is not None and not served_ok(accepted, got):
         report.property_failure("%s: get_event serves a different event than was accepted (%s)"
                                 % (store.backend, diff_fields(accepted, got.to_json_object())), payload, classify_store(accepted))
+    if got is not None:
+        app_routes(report, store, accepted, payload, app_client or make_http(store), True)
     report.case(("replay-store", store.backend, accepted["id"]), nontrivial=True)
 
 
